@@ -70,6 +70,12 @@ CHECKS = {
    note="Trusted: exactlp. Models whose bounds include zero; calls where a requested range is unbounded are domain-skipped; default thresholds.",
    technique="runtime oracle monitor (exact FVA without objective)",
    ref="DESIGN.md §4 C19"),
+ "C10": dict(
+   level="exploration",
+   text="Round-trip monitor with four oracles: (a) the SBML validator on every written document (no SBML_FATAL/ERROR/SCHEMA_ERROR, no COBRA_FATAL/ERROR); (b) the re-read model's description equals the original's under the documented equivalences (floats to 15 significant digits, rules by truth table, annotations as provider->identifiers) and the raw GLPK problems agree by name; (c) a second round trip changes nothing, exactly; (d) shipped SBML files are cross-checked by an independent stdlib-XML reader (stoichiometry, fbc bounds, active objective) against the cobra model, differences count only if cobrapy logged no warning naming the element. Generated models carry awkward ids, groups of reactions/metabolites/genes, notes, annotations, bounds of every class; channels path/handle/string; default f_replace and f_replace={}.",
+   note="Trusted: ioequiv, the 60-line independent XML reader (fbc-v2 only), libsbml's validator as the judge of validity.",
+   technique="runtime round-trip monitor + SBML validator + independent reader",
+   ref="DESIGN.md §4 C10"),
  "C11": dict(
    level="exploration",
    text="Round-trip monitor: generated models with every attribute class (awkward ids, bounds beyond the configured defaults / infinite / fixed, min and weighted objectives, nested rules over awkward gene ids, names, formulas, charges incl. 0, notes, annotations, subsystems, compartments) go through json/yaml (string, path, handle), dict and pickle (3 protocols), sort on/off, under four Configuration().bounds settings; the loaded model's description must equal the original's exactly (floats bit-identical, rules by truth table), the raw GLPK problems must agree by name, loading must not raise, and a second round trip must change nothing.",
